@@ -145,7 +145,19 @@ class StopScenario(cmdscn.CmdScenario):
         v = []
         ws = {w['id']: w for w in snap['workflow_executions_v2']}
         tasks = {t['id']: t for t in snap['task_executions_v2']}
+        cmds = [c[0] for c in env.W.extra.get('cmds', [])]
+        only_paused = bool(cmds) and cmds[-1].startswith('pause')
+        paused_before = any(c.startswith('pause') for c in cmds)
         for w in ws.values():
+            if w['state'] == 'PAUSED' and only_paused:
+                # the run in which the operator paused and did nothing else
+                continue
+            if w['state'] == 'PAUSED' and paused_before and \
+                    w['task_execution_id'] and \
+                    not any(c == 'stop:CANCELLED' for c in cmds):
+                # a sub-workflow the operator paused stays paused when its
+                # parent is failed (only a cancel reaches down the tree)
+                continue
             if w['state'] not in FINAL:
                 v.append('quiescent but execution %s is %s'
                          % (w['name'], w['state']))
@@ -242,6 +254,17 @@ def scenarios(tier):
                     jobs.append((common.variant(scn, '/overlap', rp=True),
                                  0 if quick else 1, 40 if quick else 1200,
                                  1))
+        # stop of a paused execution (PAUSED -> ERROR / CANCELLED are legal
+        # moves; SUCCESS is not)
+        if pname in ('seq3', 'subwf'):
+            res = assigns[0]
+            tag = ''.join(res[k][0] for k in sorted(res))
+            scn = StopScenario(
+                '%s/pause_then_stop/%s' % (pname, tag), prog, results=res,
+                menu=['pause', 'stop:ERROR', 'stop:CANCELLED'], max_cmds=2,
+                sequences=[['pause', 'stop:ERROR'],
+                           ['pause', 'stop:CANCELLED']])
+            jobs.append((scn, 0 if quick else 1, 40 if quick else 1200, 1))
         # the same stop repeated on the (then finished) execution
         if pname in ('seq3', 'subwf', 'late_bad_publish'):
             res = assigns[0]
